@@ -369,7 +369,9 @@ def judge_crash(ctx, outs, what, mode):
 
     def sel(oc):
         torn = oc["variant"].startswith("torn")
-        return torn if mode == "c14" else not torn
+        if mode == "c14":
+            return torn or oc["level"] > 1      # the torn variants, and crashes inside recovery
+        return not torn
 
     def one(job):
         out, summ = job
@@ -493,7 +495,8 @@ def c14(ctx):
     drv = ctx.build()
     models.run_family(ctx, "crash_torn")
     n, ops = (12, 10) if ctx.quick else (96, 14)
-    outs = run_crash(ctx, drv, n, ops, ctx.seed + 90, torn="quick" if ctx.quick else "thorough")
+    outs = run_crash(ctx, drv, n, ops, ctx.seed + 90, torn="quick" if ctx.quick else "thorough", depth=2,
+                     deep_every=25 if ctx.quick else 5)
     stats = judge_crash(ctx, outs, "c14", "c14")
     crash_cov(ctx, stats, "every crash image of the C03 enumeration, and for every file with bytes written after its last "
                           "fsync (tracked from the fs hooks) the file cut back to {synced, synced+1, middle, written-1} "
